@@ -101,7 +101,7 @@ Definition run (fields : list str) : list str :=
                     let fix go (st : hstate) (ms : list pmsg) : option (hstate * list bool) :=
                       match ms with
                       | [] => Some (st, [])
-                      | m :: r => match has_to_log pm_plain (bool_of_str ed) st m with
+                      | m :: r => match has_to_log pm_run (bool_of_str ed) st m with
                                   | None => None
                                   | Some (st1, b) => match go st1 r with
                                                      | None => None
